@@ -135,19 +135,35 @@ def pqLineOfJson? (j : Json) : Option PqLine := do
   let p := match j.getObjValD "param" with | .null => none | jp => paramOfJson? jp
   pure ⟨n, p, q⟩
 
-/-- {"op":"export","fmt":"ionq"|"projectq","gates":[..]} → records per gate (null = refused) and the gates read back -/
+/-- {"op":"export","fmt":"ionq"|"projectq","gates":[..],"n":fixed|null} → records per gate (null = refused), the gates
+    read back, and - at the level of the whole circuit - the written register ("qubits" / number of Allocate lines) and
+    the width of the circuit the reader rebuilds -/
 def exportOp (j : Json) : Json :=
   match gatesOfJson! (j.getObjValD "gates") with
   | .error e => jErr e
   | .ok gs =>
+    let circ := Circuit.ofGates gs (getNat? (j.getObjValD "n"))
+    let natOpt := fun (o : Option Nat) => match o with | some k => Json.num (Int.ofNat k) | none => Json.null
     if getStr j "fmt" == "ionq" then
       let recs := gs.map ionqWrite
+      let whole := match circ with
+        | .ok c => match ionqWriteCirc c with
+          | some jc => (some jc.qubits, (ionqReadCirc jc).toOption.map Circuit.width)
+          | none => (none, none)
+        | .error _ => (none, none)
       Json.mkObj [("records", Json.arr (recs.map (fun r => match r with | some x => ionqRecToJson x | none => Json.null)).toArray),
-                  ("back", Json.arr (recs.map (fun r => match r.bind ionqRead with | some g => gateToJson g | none => Json.null)).toArray)]
+                  ("back", Json.arr (recs.map (fun r => match r.bind ionqRead with | some g => gateToJson g | none => Json.null)).toArray),
+                  ("qubits", natOpt whole.1), ("back_width", natOpt whole.2)]
     else
       let ls := gs.map pqWrite
+      let whole := match circ with
+        | .ok c => match pqWriteCirc c with
+          | some pc => (some pc.allocs.length, (pqReadCirc pc).toOption.map Circuit.width)
+          | none => (none, none)
+        | .error _ => (none, none)
       Json.mkObj [("records", Json.arr (ls.map (fun r => match r with | some x => pqLineToJson x | none => Json.null)).toArray),
-                  ("back", Json.arr (ls.map (fun r => match r.bind pqRead with | some g => gateToJson g | none => Json.null)).toArray)]
+                  ("back", Json.arr (ls.map (fun r => match r.bind pqRead with | some g => gateToJson g | none => Json.null)).toArray),
+                  ("qubits", natOpt whole.1), ("back_width", natOpt whole.2)]
 
 end Tangelo.Driver
 
